@@ -50,6 +50,20 @@ pub fn check(case: &Case, rec: &mut Rec) -> Option<Failure> {
                     None => return fail(case, "panic", format!("panic at {}", i)),
                 }
             }
+            Op::Reset => {
+                // everything restarts: the window, the history hull, the magnitude budget and the twin
+                rec.reset(id);
+                if let Some(tw) = twin.as_mut() {
+                    tw.reset();
+                }
+                xs.clear();
+                highs.clear();
+                lows.clear();
+                big = 0.0;
+                hmin = f64::INFINITY;
+                hmax = f64::NEG_INFINITY;
+                continue;
+            }
             _ => continue,
         };
         let t = xs.len();
@@ -153,9 +167,17 @@ pub fn generate(r: &mut Runner) {
             c.ops = xs.into_iter().filter(|x| x.abs() <= 1e12).map(Op::Next).collect();
         }
         let maxp = ps.iter().copied().max().unwrap_or(1);
+        // a fifth of the cases: one or two reset() calls somewhere (state left over by reset shows up later)
+        if i % 5 == 3 && c.ops.len() > 2 {
+            for _ in 0..(1 + r.rng.below(2)) {
+                let at = r.rng.range(1, c.ops.len() - 1);
+                c.ops.insert(at, Op::Reset);
+            }
+            c.kind = format!("{}-with-reset", c.kind);
+        }
         let nt = c.ops.len() > maxp;
         r.run(c, nt);
     }
 }
 
-pub const RULE: &str = "13 indicators × sampled periods to 300 × multipliers {0,0.5,1,2,3,10,1e3,1e6} × finite streams of any sign in 9 regimes, magnitudes 1e-3..1e11, a quarter of them engineered for cancellation (values ×10^4 then a flat stretch with 1-ulp ripple, as in test_next_floating_point_error); checked at every step: SD, MAD >= 0 and not NaN; TR, ATR >= 0 (valid bars); Minimum <= Maximum (twin instance); lower <= average <= upper exactly (BB, KC); CE long <= window max(high), short >= window min(low) exactly; MACD/PPO histogram == line − signal exactly; SMA/WMA within [window min, max] ± tau(t)·M; EMA within [history min, max] ± tau(t)·M. Non-trivial = longer than the period.";
+pub const RULE: &str = "13 indicators × sampled periods to 300 × multipliers {0,0.5,1,2,3,10,1e3,1e6} × finite streams of any sign in 9 regimes, magnitudes 1e-3..1e11, a quarter of them engineered for cancellation (values ×10^4 then a flat stretch with 1-ulp ripple, as in test_next_floating_point_error); checked at every step: SD, MAD >= 0 and not NaN; TR, ATR >= 0 (valid bars); Minimum <= Maximum (twin instance); lower <= average <= upper exactly (BB, KC); CE long <= window max(high), short >= window min(low) exactly; MACD/PPO histogram == line − signal exactly; SMA/WMA within [window min, max] ± tau(t)·M; EMA within [history min, max] ± tau(t)·M. A fifth of the cases contain one or two reset() calls (window, history hull and t restart). Non-trivial = longer than the period.";
